@@ -117,7 +117,7 @@ impl SubCheck for Link {
             .prop_flat_map(move |n| {
                 let inner = (proptest::collection::vec((prop_oneof![3 => Just(0usize), 1 => 0..n], 0u8..3), 0..=3), proptest::option::weighted(0.2, 0u8..3), proptest::option::weighted(0.25, (0u8..3, 0..n, 3u8..5)))
                     .prop_map(|(script, ignore, reply)| InnerDesc { script, ignore, reply, stateless_reply: false });
-                (proptest::collection::vec(inner, n), any::<bool>(), proptest::bool::weighted(0.15), any::<bool>(), 3usize..=max_bound)
+                (proptest::collection::vec(inner, n), any::<bool>(), proptest::bool::weighted(0.25), any::<bool>(), 3usize..=max_bound)
             })
             .prop_map(|(mut actors, duplicating, ordered, lossy, bound)| {
                 // every second system: replies are produced by stateless responders
@@ -132,8 +132,16 @@ impl SubCheck for Link {
                     let _ = n;
                     a.script.retain(|(d, _)| *d != i);
                     // distinct values per sender, so that the receiver's log identifies each message
-                    for (k, e) in a.script.iter_mut().enumerate() {
-                        e.1 = k as u8;
+                    // (also on ordered networks: with loss, a retransmission of a dropped first message
+                    // arrives after the second one there too, which is the known finding F10, and
+                    // equal values would make the oracle misclassify it)
+                    // One system in four keeps the generated values (0..3, so equal payloads to the same
+                    // peer are common); for those the oracle below only uses value-free criteria.
+                    let _ = ordered;
+                    if bound % 4 != 1 {
+                        for (k, e) in a.script.iter_mut().enumerate() {
+                            e.1 = k as u8;
+                        }
                     }
                     if let Some((_, d, _)) = a.reply {
                         if d == i {
@@ -162,6 +170,7 @@ impl SubCheck for Link {
         let mut reordering_possible = false;
         let mut handovers = 0usize;
         let mut stateless_replies_seen = false;
+        let mut repeated_seen = false;
         while let Some(st) = queue.pop_front() {
             cov.eval();
             // ---------------- oracle on this state ----------------
@@ -183,6 +192,34 @@ impl SubCheck for Link {
                     let silent_trigger = if c.actors[r].stateless_reply { c.actors[r].reply.map(|x| x.0) } else { None };
                     let visible: Vec<(u64, u8)> = sent.iter().copied().filter(|(_, m)| Some(*m) != ignore && Some(*m) != silent_trigger).collect();
                     let last_delivered = recv.verif_last_delivered_seqs().iter().find(|(src, _)| usize::from(*src) == s).map(|(_, q)| *q).unwrap_or(0);
+                    let mut vals: Vec<u8> = visible.iter().map(|v| v.1).collect();
+                    vals.sort();
+                    let repeated_payloads = vals.windows(2).any(|w| w[0] == w[1]);
+                    if repeated_payloads {
+                        // Equal payloads: the log cannot tell which copy was handed over, so only
+                        // criteria that do not need the identity of a message are used.
+                        repeated_seen = true;
+                        // (a) never more copies of a value handed over than were sent
+                        for v in 0u8..3 {
+                            let (h, t) = (handed.iter().filter(|x| **x == v).count(), visible.iter().filter(|x| x.1 == v).count());
+                            if h > t {
+                                fails.push(Fail::new("c16/handed-over-twice-or-out-of-order", format!("receiver {} was handed value {} {} time(s) from sender {}, which sent it {} time(s); state {:?}", r, v, h, s, t, st)));
+                            }
+                        }
+                        // (b) once nothing is pending or in flight, no sent sequencer may lie above
+                        // the last one the receiver handed over (a message that was never delivered
+                        // at all; the known overtaking finding only loses sequencers *below* it)
+                        let pending = sender.verif_msgs_pending_ack().iter().any(|(_, d, _)| usize::from(*d) == r);
+                        let in_flight = st.network.iter_all().any(|e| usize::from(e.src) == s && usize::from(e.dst) == r && matches!(e.msg, MsgWrapper::Deliver(..)));
+                        if !pending && !in_flight {
+                            if let Some(top) = visible.iter().map(|v| v.0).max() {
+                                if top > last_delivered {
+                                    fails.push(Fail::new("c16/acknowledged-but-never-handed-over", format!("sender {} has nothing pending for {} and nothing is in flight, but it sent sequencer {} and the receiver's last delivered sequencer is {} (sent {:?}, handed {:?}); state {:?}", s, r, top, last_delivered, sent, handed, st)));
+                                }
+                            }
+                        }
+                        continue;
+                    }
                     // match `handed` as a subsequence of `visible`
                     let mut pos = 0usize;
                     let mut gaps: Vec<u64> = vec![];
@@ -288,6 +325,7 @@ impl SubCheck for Link {
         cov.label_if(c.actors.iter().any(|a| a.reply.is_some()), "reverse_traffic");
         cov.label_if(c.actors.iter().any(|a| a.ignore.is_some()), "ignoring_receiver");
         cov.label_if(stateless_replies_seen, "stateless_reply_handed_over");
+        cov.label_if(repeated_seen, "repeated_equal_payloads_to_one_peer");
         cov.label_if(seen.len() >= cap, "capped");
         if handovers >= 2 {
             cov.nontrivial(c);
@@ -306,7 +344,7 @@ impl SubCheck for Link {
         Ok(())
     }
     fn mandatory(&self) -> Vec<&'static str> {
-        vec!["two_messages_in_one_unordered_flow", "duplicating", "duplicating_lossy", "nonduplicating", "nonduplicating_lossy", "drop", "retransmission_timeout", "reverse_traffic", "ignoring_receiver", "stateless_reply_handed_over"]
+        vec!["two_messages_in_one_unordered_flow", "duplicating", "duplicating_lossy", "nonduplicating", "nonduplicating_lossy", "drop", "retransmission_timeout", "reverse_traffic", "ignoring_receiver", "stateless_reply_handed_over", "repeated_equal_payloads_to_one_peer"]
     }
     fn workers(&self) -> usize {
         default_workers()
